@@ -160,6 +160,8 @@ type State struct {
 	sliceExcl map[*Obj]map[string]bool
 	// labels of symbolic interface values, by reference term (they survive boxing into arrays)
 	taintRef map[string]uint8
+	// channels closed on this path (by reference term): a second close, or a send, panics
+	closedCh map[string]bool
 }
 
 func (s *State) clone() *State {
@@ -182,6 +184,12 @@ func (s *State) clone() *State {
 		n.taintRef = make(map[string]uint8, len(s.taintRef))
 		for k, b := range s.taintRef {
 			n.taintRef[k] = b
+		}
+	}
+	if len(s.closedCh) > 0 {
+		n.closedCh = make(map[string]bool, len(s.closedCh))
+		for k, b := range s.closedCh {
+			n.closedCh[k] = b
 		}
 	}
 	if len(s.sliceExcl) > 0 {
